@@ -10,8 +10,10 @@ import (
 	"runtime"
 	"strings"
 	"sync"
+	"sync/atomic"
 
 	"perkeep.org/pkg/blob"
+	"perkeep.org/pkg/blobserver/diskpacked"
 
 	"verif.local/harness/ev"
 )
@@ -26,7 +28,7 @@ func main() {
 		return
 	}
 	ev.Main("C03", "fault_enumeration",
-		"seeded receive/remove histories over <=13 blobs (empty blob, duplicate receive, remove + re-receive in every history); the LAST op is crashed at every point: files = every prefix of its VFS call trace (plus cuts inside each Write) x {un-synced data kept, dropped, zeroed} on an in-memory crash-modelling VFS; diskpacked (leveldb, kv and sqlite metaIndex, maxFileSize 2000) = crash directories materialised from a real before/after snapshot diff (every prefix of the appended record for records <=256 B, else header boundaries +-2 and 16 body cuts; index before/after; with/without next pack on roll-over; every order-consistent and, counted separately, every power-loss subset of {header rewrite (also torn), body zeroing (prefixes), index row delete}); the order of pack writes relative to the index write is OBSERVED (packs read at the index-mutation instant through a recording KV), and so is the order of header rewrite and body release inside a remove (system-call trace of a child that removes blobs of six sizes): which removal subsets a process death can leave follows the code under test, it is not assumed; every diskpacked crash state is restarted twice: on the store's own index, and (the operator's recovery path) on a FRESH index rebuilt from the pack files with diskpacked.Reindex, the history continuing on the rebuilt index; plus index-ahead-of-pack states (row present, body cut short) that are judged only after the acknowledged retry of the upload; refs are sha224 mixed with sha1 and sha256; after each restart: journal maybe-map audit (fetch, subfetch, stat, enumerate, stream incl. resumption from continuation tokens), Reindex into a fresh index + audit of a store opened on it, continued history (re-do of the in-flight op - an in-flight remove is continued both by re-receive and by re-remove, an in-flight receive by retry and by retry-then-remove -, new blobs across a roll-over, removes, duplicate and re-receive), second audit and Reindex, and last a Reindex(overwrite) attempt on the store's LIVE index (succeeding or failing) after which every acknowledged blob served before it must still be served; both tiers also replay an strace of a child (localdisk, diskpacked) against per-file dirty bits: no receive may be acknowledged with un-fsynced blob data; thorough adds real SIGKILLs of a child process on the OS filesystem (incl. multi-MiB blobs whose write(2) a kill cuts short); distinct = (store, history, crash-point kind, offset class)",
+		"seeded receive/remove histories over <=13 blobs (empty blob, duplicate receive, remove + re-receive in every history); the LAST op is crashed at every point: files = every prefix of its VFS call trace (plus cuts inside each Write) x {un-synced data kept, dropped, zeroed} on an in-memory crash-modelling VFS; diskpacked (leveldb, kv and sqlite metaIndex, maxFileSize 2000) = crash directories materialised from a real before/after snapshot diff (every prefix of the appended record for records <=256 B, else header boundaries +-2 and 16 body cuts; index before/after; with/without next pack on roll-over; every order-consistent and, counted separately, every power-loss subset of {header rewrite (also torn), body zeroing (prefixes), index row delete}); the order of pack writes relative to the index write is OBSERVED (packs read at the index-mutation instant through a recording KV), and so is the order of header rewrite and body release inside a remove (system-call trace of a child that removes blobs of six sizes): which removal subsets a process death can leave follows the code under test, it is not assumed; every diskpacked crash state is restarted twice: on the store's own index, and (the operator's recovery path) on a FRESH index rebuilt from the pack files with diskpacked.Reindex, the history continuing on the rebuilt index; plus index-ahead-of-pack states (row present, body cut short) that are judged only after the acknowledged retry of the upload; refs are sha224 mixed with sha1 and sha256; after each restart: journal maybe-map audit (fetch, subfetch, stat, enumerate, stream incl. resumption from continuation tokens), Reindex into a fresh index + audit of a store opened on it, continued history (re-do of the in-flight op - an in-flight remove is continued both by re-receive and by re-remove, an in-flight receive by retry and by retry-then-remove -, new blobs across a roll-over, removes, duplicate and re-receive), second audit and Reindex, and last a Reindex(overwrite) attempt on the store's LIVE index (succeeding or failing) after which every acknowledged blob served before it must still be served; a slice of the diskpacked histories (removal shapes; ids h<N>np) runs on directories for which hole punching is refused (verif hook), so that every removal - prefix, crashed operation, continuation - takes the zero-fill fallback of non-Linux builds and of file systems without FALLOC_FL_PUNCH_HOLE; both tiers also replay an strace of a child (localdisk, diskpacked) against per-file dirty bits: no receive may be acknowledged with un-fsynced blob data; thorough adds real SIGKILLs of a child process on the OS filesystem (incl. multi-MiB blobs whose write(2) a kill cuts short); distinct = (store, history, crash-point kind, offset class)",
 		run)
 }
 
@@ -77,8 +79,10 @@ func run(r *ev.Run) {
 	r.Assume("a removal state counts as reachable by a process death (no power-loss/ prefix) iff it is a prefix of an OBSERVED sequence of the three effects: index row vs pack content from the recording KV of that very operation, header rewrite vs body release from the strace of the diskpacked child (first occurrence of each effect; one order per run unless removes of different sizes show different orders, then either); evidence: observed_order, observed_pack_write_order, pack_write_order_source")
 	r.Assume("recovery attempt on the LIVE index: at the end of every diskpacked case the store is stopped and diskpacked.Reindex(overwrite) is run on the index the store uses (pk reindex-diskpacked -overwrite), then the store is started again; judged is only that each acknowledged, non-removed blob a view (fetch, stat, enumerate) served intact before the attempt is served intact by that view after it, whether the rebuild returned nil (reindex-inplace-lost/) or an error (reindex-failed-then-lost/); what a rebuild may add is judged on the fresh index only")
 	r.Assume("a StreamBlobs error is judged only through its consequence (an acknowledged blob not streamed); errors at a torn tail after all present blobs were delivered are counted")
+	r.Assume("file systems without hole punching (every non-Linux build; fallocate answering ENOSYS/EOPNOTSUPP): a slice of the diskpacked histories (ids h<N>np) runs in directories for which the verif hook of pkg/blobserver/diskpacked refuses the hole punch, so that every removal there - in the history prefix, as the crashed operation whose before/after diff the crash states are built from, and in the continued history after each restart - takes dele.go's zero-fill fallback; same oracles, same signatures; the order of header rewrite and zero fill is observed in the traced child too (second round of its probe removes with punching refused)")
 	scratch := ev.Scratch("c03")
 	defer os.RemoveAll(scratch)
+	diskpacked.VerifSetNoPunchFilter(noPunchPath)
 
 	w := makeWorld(r.Rand("world"))
 	nHist := r.Pick(12, 144)
@@ -144,22 +148,37 @@ func run(r *ev.Run) {
 		hp := genHistory(r.Rand("hist/packed/"+hid), w, hid, shape)
 		j := &packedJob{r: r, w: w, h: hp, idxKind: idxKind, store: "diskpacked-" + idxKind,
 			dir: filepath.Join(scratch, "packed-"+hid)}
-		prep = append(prep, func() {
-			ok := false
-			r.Guard("diskpacked-history", caseInfo{CaseID: j.store + "-" + hid + ";", History: hp.strings(w)}, func() { ok = j.prepare() })
-			if !ok {
-				return
-			}
-			r.Note("history_shapes", "diskpacked/"+hp.Shape)
-			if j.rolled {
-				r.Note("events", "roll-over-in-last-op")
-			}
-			mu.Lock()
-			for i := range j.states {
-				cases = append(cases, func() { j.runCase(i) })
-			}
-			mu.Unlock()
-		})
+		addJob := func(j *packedJob) {
+			prep = append(prep, func() {
+				ok := false
+				r.Guard("diskpacked-history", caseInfo{CaseID: j.store + "-" + j.h.ID + ";", History: j.h.strings(w)}, func() { ok = j.prepare() })
+				if !ok {
+					return
+				}
+				if j.noPunch {
+					r.Note("history_shapes_nopunch", j.h.Shape)
+				} else {
+					r.Note("history_shapes", "diskpacked/"+j.h.Shape)
+				}
+				if j.rolled {
+					r.Note("events", "roll-over-in-last-op")
+				}
+				mu.Lock()
+				for i := range j.states {
+					cases = append(cases, func() { j.runCase(i) })
+				}
+				mu.Unlock()
+			})
+		}
+		addJob(j)
+		// the same families on a file system without hole punching: own histories of the shapes that
+		// matter for a removal (quick: one each; thorough: three each)
+		if noPunchShapes[shape] && hno < 3*len(shapes) {
+			npKind := []string{"leveldb", "kv"}[(hno+hno/len(shapes))%2]
+			hn := genHistory(r.Rand("hist/packed-nopunch/"+hid), w, hid+"np", shape)
+			addJob(&packedJob{r: r, w: w, h: hn, idxKind: npKind, store: "diskpacked-" + npKind, noPunch: true,
+				dir: filepath.Join(scratch, "packed-"+hid+noPunchMark)})
+		}
 	}
 	pool(workers, prep)
 	r.Extra("histories_per_store", nHist)
@@ -186,8 +205,12 @@ func run(r *ev.Run) {
 		wg.Wait()
 		r.Extra("real_states_covered", r.Counter("real_states_outside_materialiser_leveldb") == 0)
 	}
+	r.Extra("removals_refused_the_hole_punch", diskpacked.VerifNoPunchHits())
 	if os.Getenv("VERIF_ONLY") != "" {
 		return // a replay of one case does not claim coverage
+	}
+	if diskpacked.VerifNoPunchHits() > 0 {
+		r.Note("events", "zero-fill-fallback-reached")
 	}
 	if r.Thorough() {
 		r.Require("events", "real-kill-localdisk", "real-kill-diskpacked-leveldb", "real-kill-diskpacked-kv")
@@ -215,4 +238,48 @@ func run(r *ev.Run) {
 		"remove-none", "remove-header-torn", "remove-header", "remove-header-zero-partial", "remove-header-zeroed", "remove-complete",
 		"remove-index-only", "remove-header-index", "remove-zeroed-only", "remove-zeroed-index", "ahead-torn-body")
 	r.Require("state_classes", "order-consistent", "power-loss-only")
+	// without hole punching: the removal shapes ran, and the crash states of a zero-filling remove as
+	// well as the no-crash state of a fully acknowledged history were restarted
+	r.Require("events", "zero-fill-fallback-reached")
+	r.Require("history_shapes_nopunch", "recv-small", "remove-body", "remove-oldpack", "remove-absent", "remove-big")
+	r.Require("crash_states_diskpacked_nopunch", "remove-none", "remove-header", "remove-header-zero-partial", "remove-header-zeroed",
+		"remove-complete", "remove-nowrite", "torn-body", "full-indexed")
+	r.Require("restarts_rebuilt_nopunch", "remove-header-zeroed", "remove-complete", "remove-nowrite")
+	if traced {
+		r.Require("events", "remove-pack-order-observed-nopunch")
+	}
+}
+
+// Directories whose name ends in noPunchMark stand for a file system without hole punching: the
+// verif hook of pkg/blobserver/diskpacked refuses the punch for every pack file below them.
+const noPunchMark = "-nopunch"
+
+var noPunchShapes = map[string]bool{"recv-small": true, "remove-body": true, "remove-oldpack": true, "remove-absent": true, "remove-big": true}
+
+var noPunchSeen sync.Map // directory element carrying the mark -> *atomic.Int64: punches refused below it
+
+func noPunchDirOf(path string) string {
+	i := strings.Index(path, noPunchMark+string(filepath.Separator))
+	if i < 0 {
+		return ""
+	}
+	return filepath.Base(path[:i+len(noPunchMark)])
+}
+
+func noPunchPath(path string) bool {
+	d := noPunchDirOf(path)
+	if d == "" {
+		return false
+	}
+	c, _ := noPunchSeen.LoadOrStore(d, new(atomic.Int64))
+	c.(*atomic.Int64).Add(1)
+	return true
+}
+
+// noPunchRefused is the number of hole punches refused so far below the marked directory dir.
+func noPunchRefused(dir string) int64 {
+	if c, ok := noPunchSeen.Load(filepath.Base(dir)); ok {
+		return c.(*atomic.Int64).Load()
+	}
+	return 0
 }
